@@ -189,11 +189,17 @@ fn class_xml(ts: &[MT]) -> Option<&'static str> {
     if ts.iter().any(|t| t.1.strip_prefix(RDF_NS).map_or(false, |l| RESERVED.contains(&l))) {
         return Some("xml-reserved-rdf-predicate");
     }
+    if ts.iter().any(|t| t.1 == "http://www.w3.org/2000/xmlns/") {
+        return Some("xml-xmlns-namespace-predicate");
+    }
     None
 }
 
 // ---------- generator ----------
-const NS: [&str; 8] = [
+const NS: [&str; 11] = [
+    "http://www.w3.org/XML/1998/namespace#",
+    "http://www.w3.org/XML/1998/namespace",
+    "http://www.w3.org/2000/xmlns/",
     "http://e/",
     "http://example.org/ns#",
     "urn:x:",
@@ -582,7 +588,7 @@ fn main() {
     out.rule = "random triple sets of 0..7 triples over small subject/predicate pools (so Turtle object lists, predicate \
                 lists and rdf:Description groups occur), terms built with the validating constructors from boundary \
                 pools: IRIs over 8 namespaces x 22 local names (empty local name, leading digit, non-ASCII, astral, rdf: \
-                reserved names), blank-node labels (digits, dots, colons, non-ASCII; shared between triples), literal \
+                reserved names, the xml and xmlns namespaces), blank-node labels (digits, dots, colons, non-ASCII; shared between triples), literal \
                 values over quotes, backslash, LF, CR, tab, C0 controls, DEL, NEL, U+2028, noncharacters, astral and \
                 private-use characters, XML metacharacters, empty and whitespace-only strings; language tags of both \
                 cases; xsd:string, custom and rdf: datatypes. 2/5 of the cases draw from the full boundary pools (known \
@@ -619,6 +625,12 @@ fn main() {
         "xml-reserved-rdf-predicate",
         &[RdfFormat::RdfXml],
         vec![Triple::new(s(), p("http://www.w3.org/1999/02/22-rdf-syntax-ns#li"), Literal::new_simple_literal("x").into())],
+    );
+    replay(
+        &mut out,
+        "xml-xmlns-namespace-predicate",
+        &[RdfFormat::RdfXml],
+        vec![Triple::new(s(), p("http://www.w3.org/2000/xmlns/"), Literal::new_simple_literal("x").into())],
     );
     out.finish();
 }
